@@ -167,7 +167,9 @@ func C12(run *ev.Run, tier string) map[string]interface{} {
 						continue // outside DynamoDB's precision: no demand
 					}
 					ev.Breadcrumb(fmt.Sprintf("%s a=%s :n=%s", c.expr, x, y))
-					out, after := itp.Update(c.expr, val.Item{"a": val.N(x), "keep": val.N("12345678901234567890123456789012345678")}, nil, map[string]val.V{":n": val.N(y)})
+					big := "12345678901234567890123456789012345678"
+					nested := val.Item{"keepL": val.L(val.S("x"), val.N(big)), "keepM": val.M("n", val.N(big), "l", val.L(val.N(big))), "keepNS": val.NS(big, "1")}
+					out, after := itp.Update(c.expr, val.Item{"a": val.N(x), "keep": val.N(big), "keepL": nested["keepL"], "keepM": nested["keepM"], "keepNS": nested["keepNS"]}, nil, map[string]val.V{":n": val.N(y)})
 					count("arith")
 					if out.O != "T" {
 						run.Report(fmt.Sprintf("C12|arith|%s|rejected", c.name), fmt.Sprintf("%s with a=%s :n=%s: %s %s", c.expr, x, y, out.O, out.Msg), map[string]interface{}{"expression": c.expr, "a": x, "n": y})
@@ -184,6 +186,13 @@ func C12(run *ev.Run, tier string) map[string]interface{} {
 						// attribute whose double value did not change keeps its stored text)
 						explained := f64(got.S) == c.fl
 						run.Report(fmt.Sprintf("C12|arith|explained-by-float64=%v", explained), fmt.Sprintf("%s with a=%s :n=%s: want %s got %s", c.expr, x, y, c.exact.Plain(), got.S), map[string]interface{}{"expression": c.expr, "a": x, "n": y})
+					}
+					if out.O == "T" {
+						for k, want := range nested {
+							if !val.Equal(after[k], want) {
+								run.Report("C12|untouched-nested-number-changed|"+k, fmt.Sprintf("%s changed the untouched attribute %s from %s to %s", c.expr, k, want.CanonText(), after[k].CanonText()), map[string]interface{}{"expression": c.expr})
+							}
+						}
 					}
 					// the untouched 38-digit number
 					keep := after["keep"]
@@ -218,7 +227,7 @@ func C12(run *ev.Run, tier string) map[string]interface{} {
 		}
 	}
 	// 3. number keys through the client API: identity by value (hash and range position) and order
-	keyNums := []string{"0", "-0", "0.0", "1", "1.0", "01", "1e0", "10", "9", "2", "100", "1e2", "0.1", "0.10", "-1", "-1.50", "9007199254740992", "9007199254740993"}
+	keyNums := []string{"0", "-0", "0.0", "1", "1.0", "1.00", "01", "1e0", "10", "10.0", "9", "2", "2.0", "20", "20.0", "100", "100.00", "1e2", "0.1", "0.10", "0.5", "5e-1", "-1", "-1.50", "-10.0", "9007199254740992", "9007199254740993"}
 	for _, d := range Drivers {
 		d := d
 		for _, pos := range []string{"hash", "range"} {
